@@ -110,15 +110,18 @@ type gatom struct {
 	w      wrap     // S, R, C
 	target int      // R: index of the rendered file
 	ref    string   // R: the path as written
-	macro  int      // C
+	macro  int      // C: the name as written (name code, see macroName)
+	decl   int      // C: the declaration the generator meant (gitem.id); what the lexical scope says
 	viaVar bool     // R, C: {% var v = X %}{{ v }} instead of {{ X }}
+	block  byte     // S, P, R, C: 0, or the site sits in the body of 'i' {% if true %} / 'f' {% for … one turn %}
 	ctx    int      // S, R, C: context of the Show node, read from the real parser
 }
 
 type gitem struct {
 	kind   byte // 'A' atom, 'M' macro declaration, 'X' extends, 'I' import
 	a      gatom
-	id     int     // M
+	id     int     // M: the declaration (unique in the set)
+	name   int     // M: the name code; the same unexported name may be declared in several files
 	mfmt   int     // M: -1 = no result format
 	params []int   // M: parameter types (formats; text = string)
 	rank   int     // M: callees have a lower rank (declaration order in sequentially scoped files)
@@ -138,7 +141,18 @@ type gset struct {
 	files []*gfile
 }
 
-func macroName(id int) string { return "M" + strconv.Itoa(id) }
+// macroName writes a name code: even codes are exported names (M0, M1, …), odd codes unexported
+// ones (m0, m1, …) — the numbering of Model/Compose.lean (`exported`, `nameInitial`).
+func macroName(code int) string {
+	if code%2 == 0 {
+		return "M" + strconv.Itoa(code/2)
+	}
+	return "m" + strconv.Itoa(code/2)
+}
+
+func exportedName(code int) bool { return code%2 == 0 }
+
+var blockOpen = map[byte]string{'i': "{% if true %}", 'f': "{% for i := 0; i < 1; i++ %}"}
 
 // forEachSite visits the show sites of f in source order (= the order of the Show nodes).
 func (f *gfile) forEachSite(fn func(a *gatom)) {
@@ -163,6 +177,10 @@ func (f *gfile) source() string {
 	var b strings.Builder
 	nvar := 0
 	atom := func(a *gatom) {
+		if a.kind != 'T' && a.block != 0 {
+			b.WriteString(blockOpen[a.block])
+			defer b.WriteString("{% end %}")
+		}
 		switch a.kind {
 		case 'T':
 			b.WriteString(a.text)
@@ -194,7 +212,7 @@ func (f *gfile) source() string {
 		case 'A':
 			atom(&it.a)
 		case 'M':
-			b.WriteString("{% macro " + macroName(it.id))
+			b.WriteString("{% macro " + macroName(it.name))
 			if len(it.params) > 0 {
 				var ps []string
 				for k, t := range it.params {
@@ -385,7 +403,7 @@ func (s *gset) encode() string {
 				if it.mfmt >= 0 {
 					mf = strconv.Itoa(it.mfmt)
 				}
-				fmt.Fprintf(&b, " M %d %s %d", it.id, mf, len(it.params))
+				fmt.Fprintf(&b, " M %d %s %d", it.name, mf, len(it.params))
 				for _, t := range it.params {
 					fmt.Fprintf(&b, " %d", t)
 				}
@@ -463,6 +481,19 @@ func runEngine(files scriggo.Files, name string, globals native.Declarations, co
 						walk(n.Nodes)
 					case *ast.Statements:
 						walk(n.Nodes)
+					case *ast.If:
+						if n.Then != nil {
+							walk(n.Then.Nodes)
+						}
+						if n.Else != nil {
+							walk([]ast.Node{n.Else})
+						}
+					case *ast.For:
+						walk(n.Body)
+					case *ast.ForRange:
+						walk(n.Body)
+					case *ast.ForIn:
+						walk(n.Body)
 					}
 				}
 			}
@@ -574,6 +605,22 @@ type genState struct {
 	nextMac   int
 	macFmt    map[int]int   // macro id -> result format
 	macParams map[int][]int // macro id -> parameter types
+	macName   map[int]int   // macro id -> name code
+	used      map[*gfile]map[int]bool // names declared in a file
+}
+
+// lowerPool: the unexported names the generator draws from. Small, so that the same name is declared
+// in several files of one set (imported file, importer, rendered partial, child and layout).
+var lowerPool = []int{1, 3, 5}
+
+func exportedOnly(g *genState, ids []int) []int {
+	var out []int
+	for _, id := range ids {
+		if exportedName(g.macName[id]) {
+			out = append(out, id)
+		}
+	}
+	return out
 }
 
 func (g *genState) pick(n int) int { return g.c.R.Intn(n) }
@@ -640,7 +687,11 @@ func (g *genState) atoms(self *gfile, format int, n int, macros []int, partials 
 					args = append(args, typedArgs[g.pick(len(typedArgs))])
 				}
 			}
-			out = append(out, gatom{kind: 'C', macro: id, args: args, w: w, viaVar: g.pick(3) == 0})
+			a := gatom{kind: 'C', macro: g.macName[id], decl: id, args: args, w: w, viaVar: g.pick(3) == 0}
+			if g.pick(6) == 0 {
+				a.block = "if"[g.pick(2)]
+			}
+			out = append(out, a)
 		default:
 			text()
 		}
@@ -676,6 +727,26 @@ func (g *genState) index(f *gfile) int {
 func (g *genState) newMacro(f *gfile) (id, mfmt int) {
 	id = g.nextMac
 	g.nextMac++
+	// the name: exported and unique in the set, or (1 in 3) an unexported one of the pool that this file
+	// does not declare yet — other files of the set may
+	name := 2 * id
+	if g.used[f] == nil {
+		g.used[f] = map[int]bool{}
+	}
+	if g.pick(3) == 0 {
+		var free []int
+		for _, n := range lowerPool {
+			if !g.used[f][n] {
+				free = append(free, n)
+			}
+		}
+		if len(free) > 0 {
+			name = free[g.pick(len(free))]
+			g.c.Res.Hist("macro-name-unexported")
+		}
+	}
+	g.used[f][name] = true
+	g.macName[id] = name
 	mfmt = -1
 	bodyFmt := f.format
 	if g.pick(2) == 0 {
@@ -696,7 +767,7 @@ func (g *genState) newMacro(f *gfile) (id, mfmt int) {
 // macroDecl appends to f the declaration of a reserved macro.
 func (g *genState) macroDecl(f *gfile, id, mfmt, rank int, macros, partials []int) {
 	body := g.atoms(f, g.macFmt[id], 1+g.pick(3), macros, partials, g.macParams[id])
-	f.items = append(f.items, gitem{kind: 'M', id: id, mfmt: mfmt, params: g.macParams[id], rank: rank, body: body})
+	f.items = append(f.items, gitem{kind: 'M', id: id, name: g.macName[id], mfmt: mfmt, params: g.macParams[id], rank: rank, body: body})
 }
 
 func (g *genState) ws(f *gfile) {
@@ -747,7 +818,7 @@ func (g *genState) packageDecls(f *gfile, k int, vis, partials []int) (own []int
 // generate builds one set. Roles: libs are only imported; partials are only rendered; the layout is
 // only extended; child and main are only run.
 func generate(c *hx.Ctx) *gset {
-	g := &genState{c: c, set: &gset{}, macFmt: map[int]int{}, macParams: map[int][]int{}}
+	g := &genState{c: c, set: &gset{}, macFmt: map[int]int{}, macParams: map[int][]int{}, macName: map[int]int{}, used: map[*gfile]map[int]bool{}}
 	randFmt := func() int {
 		// html and text more often
 		return []int{fHTML, fHTML, fHTML, fText, fText, fMD, fMD, fJS, fCSS, fJSON}[g.pick(10)]
@@ -768,7 +839,7 @@ func generate(c *hx.Ctx) *gset {
 		}
 		own := g.packageDecls(f, 1+g.pick(3), vis, parts)
 		idx := g.index(f)
-		exports[idx] = own
+		exports[idx] = exportedOnly(g, own) // an importer sees the exported names only
 		libs = append(libs, idx)
 	}
 	nlibs := g.pick(3)
@@ -834,7 +905,7 @@ func generate(c *hx.Ctx) *gset {
 			}
 		}
 		own := g.packageDecls(child, 1+g.pick(3), vis, partials)
-		fileBody(layout, 2+g.pick(4), own)
+		fileBody(layout, 2+g.pick(4), exportedOnly(g, own))
 	}
 	main := g.newFile("main", randFmt())
 	fileBody(main, 2+g.pick(5), nil)
@@ -852,8 +923,17 @@ func absRef(from, ref string) string {
 }
 
 // declItems returns the imports (made absolute) and the macro declarations (result format made
-// explicit, render references made absolute) of f, as they read inside another file.
+// explicit, render references made absolute) of f, as they read inside another file. The unexported
+// names of f are private to f: written into another file they are α-renamed to names nobody else
+// uses (m5000, m5001, …), in the declarations and in the calls of f's bodies (inside f a name that f
+// declares resolves to f's declaration).
 func declItems(f *gfile) (imports, decls []gitem) {
+	ren := map[int]int{}
+	for _, it := range f.items {
+		if it.kind == 'M' && !exportedName(it.name) {
+			ren[it.name] = 2*(5000+len(ren)) + 1
+		}
+	}
 	for _, it := range f.items {
 		switch it.kind {
 		case 'I':
@@ -868,9 +948,15 @@ func declItems(f *gfile) (imports, decls []gitem) {
 				if a.kind == 'R' {
 					a.ref = absRef(f.path, a.ref)
 				}
+				if n, ok := ren[a.macro]; ok && a.kind == 'C' {
+					a.macro = n
+				}
 				body[j] = a
 			}
 			it.body = body
+			if n, ok := ren[it.name]; ok {
+				it.name = n
+			}
 			decls = append(decls, it)
 		}
 	}
@@ -937,7 +1023,7 @@ func expansion(host *gfile, skip int, from *gfile, newPath string) *gfile {
 
 func run(c *hx.Ctx) error {
 	res := c.Res
-	res.Rule = "generated multi-file sets: 0-3 libraries (imported), 1-4 partials (rendered, nested up to depth 4), optionally a layout with a child that extends it (Markdown child on HTML layout included), a main file; formats text/html/css/js/json/markdown by extension; directories with relative and absolute references; macros with and without result format and with 0-2 parameters (string or format types, constant arguments), with package scope and forward references in imported and extending files; show sites (constant, parameter, macro call, render; direct or through a variable) wrapped so as to sit in top-level, attribute, tag, script, style, string and code-block contexts. A case = one run of one file of a set (or of one of its expansions); non-trivial when the file contains at least one macro call or render site; distinct by the sources of the set plus the file run"
+	res.Rule = "generated multi-file sets: 0-3 libraries (imported), 1-4 partials (rendered, nested up to depth 4), optionally a layout with a child that extends it (Markdown child on HTML layout included), a main file; formats text/html/css/js/json/markdown by extension; directories with relative and absolute references; macros with and without result format and with 0-2 parameters (string or format types, constant arguments), with package scope and forward references in imported and extending files; macro names exported (unique in the set) or unexported from a pool of three, so that the same private name is declared in several files of a set; two deterministic name-collision matrices (collide.go): 86 sets placement x reference site x declaration order in the modelled language, and 1080 points declaration kind x case x importer-declares x placement x site on the engine against the lexical-scope rule; show sites (constant, parameter, macro call, render; direct or through a variable) wrapped so as to sit in top-level, attribute, tag, script, style, string and code-block contexts. A case = one run of one file of a set (or of one of its expansions); non-trivial when the file contains at least one macro call or render site; distinct by the sources of the set plus the file run"
 	m := &measurer{cache: map[escKey]string{}}
 
 	// ---- known findings: replay the recorded minimal inputs
@@ -1052,6 +1138,20 @@ func run(c *hx.Ctx) error {
 		}
 	}
 
+	// ---- name collisions across the files of one build (collide.go): the two deterministic matrices
+	lexicalFamily(c)
+	csets, clabels := collisionSets()
+	for i, set := range csets {
+		res.Hist("collision-set")
+		before := len(res.Breaks)
+		if err := checkSet(c, m, set, 1+i); err != nil {
+			return fmt.Errorf("collision set %s: %v", clabels[i], err)
+		}
+		for j := before; j < len(res.Breaks); j++ {
+			res.Breaks[j].Case = "collision matrix " + clabels[i] + ": " + res.Breaks[j].Case
+		}
+	}
+
 	nsets := c.N(120, 3000)
 	for si := 0; si < nsets; si++ {
 		set := generate(c)
@@ -1149,7 +1249,7 @@ func engineClass(r engineResult) string {
 		return r.line()
 	case strings.Contains(r.msg, "does not exist"):
 		return "err nofile"
-	case strings.Contains(r.msg, "undefined: M"):
+	case strings.Contains(r.msg, "undefined: M"), strings.Contains(r.msg, "undefined: m"):
 		return "err undefined"
 	case strings.Contains(r.msg, "can not have extends"), strings.Contains(r.msg, "instead of"):
 		return "err badextends"
@@ -1432,7 +1532,7 @@ func reportSite(c *hx.Ctx, m *measurer, set *gset, f *gfile, a *gatom, r *gfile,
 	} else {
 		for _, g := range set.files {
 			for _, it := range g.items {
-				if it.kind == 'M' && it.id == a.macro {
+				if it.kind == 'M' && it.id == a.decl {
 					from = it.mfmt
 					if from < 0 {
 						from = g.format
@@ -1585,29 +1685,38 @@ func malformed(c *hx.Ctx, m *measurer) error {
 		enc   string
 		want  string
 	}
+	// names on the wire: M1 = 2, M2 = 4 (exported, even), m1 = 3, m2 = 5 (unexported, odd)
 	cases := []bad{
 		{map[string]string{"a.html": `{{ render "x.html" }}`}, "a.html", "1 F 1 1 A R 1 7 0", "err nofile"},
-		{map[string]string{"a.html": `{{ M1() }}`}, "a.html", "1 F 1 1 A C 1 1 0 0", "err undefined"},
+		{map[string]string{"a.html": `{{ M1() }}`}, "a.html", "1 F 1 1 A C 1 2 0 0", "err undefined"},
 		{map[string]string{"a.html": `{{ render "x.html" }}`, "x.html": `{% extends "l.html" %}`, "l.html": "l"}, "a.html",
 			"3 F 1 1 A R 1 1 0 F 1 1 X 2 F 1 1 A T 6c", "err badextends"},
 		{map[string]string{"a.html": `{% extends "l.txt" %}`, "l.txt": "l"}, "a.html", "2 F 1 1 X 1 F 0 1 A T 6c", "err badextends"},
 		{map[string]string{"a.md": `{% extends "l.html" %}{% macro M1 %}*{% end %}`, "l.html": "[{{ M1() }}]"}, "a.md",
-			"2 F 5 2 X 1 M 1 - 0 1 T 2a F 1 3 A T 5b A C 1 1 0 0 A T 5d", "ok " + proto.Hex([]byte("[<md>*</md>]"))},
+			"2 F 5 2 X 1 M 2 - 0 1 T 2a F 1 3 A T 5b A C 1 2 0 0 A T 5d", "ok " + proto.Hex([]byte("[<md>*</md>]"))},
 		// imports are not transitive
 		{map[string]string{"a.html": `{% import "l.html" %}{{ M1() }}`, "l.html": `{% import "k.html" %}{% macro M2 %}x{% end %}`, "k.html": `{% macro M1 %}y{% end %}`}, "a.html",
-			"3 F 1 2 I 1 A C 1 1 0 0 F 1 2 I 2 M 2 - 0 1 T 78 F 1 1 M 1 - 0 1 T 79", "err undefined"},
+			"3 F 1 2 I 1 A C 1 2 0 0 F 1 2 I 2 M 4 - 0 1 T 78 F 1 1 M 2 - 0 1 T 79", "err undefined"},
 		// a forward reference: fine inside an imported file, undefined in a file that is run
 		{map[string]string{"a.html": `{% import "l.html" %}{{ M1() }}`, "l.html": `{% macro M1 %}{{ M2() }}{% end %}{% macro M2 %}y{% end %}`}, "a.html",
-			"2 F 1 2 I 1 A C 1 1 0 0 F 1 2 M 1 - 0 1 C 1 2 0 0 M 2 - 0 1 T 79", "ok " + proto.Hex([]byte("y"))},
+			"2 F 1 2 I 1 A C 1 2 0 0 F 1 2 M 2 - 0 1 C 1 4 0 0 M 4 - 0 1 T 79", "ok " + proto.Hex([]byte("y"))},
 		{map[string]string{"a.html": `{{ M1() }}{% macro M1 %}x{% end %}`}, "a.html",
-			"1 F 1 2 A C 1 1 0 0 M 1 - 0 1 T 78", "err undefined"},
+			"1 F 1 2 A C 1 2 0 0 M 2 - 0 1 T 78", "err undefined"},
 		{map[string]string{"a.html": `{% macro M1 %}{{ M2() }}{% end %}{% macro M2 %}y{% end %}{{ M1() }}`}, "a.html",
-			"1 F 1 3 M 1 - 0 1 C 1 2 0 0 M 2 - 0 1 T 79 A C 1 1 0 0", "err undefined"},
+			"1 F 1 3 M 2 - 0 1 C 1 4 0 0 M 4 - 0 1 T 79 A C 1 2 0 0", "err undefined"},
 		// wrong number of arguments
 		{map[string]string{"a.html": `{% macro M1(p0 string) %}{{ p0 }}{% end %}{{ M1() }}`}, "a.html",
-			"1 F 1 2 M 1 - 1 0 1 P 1 0 A C 1 1 0 0", "err badargs"},
+			"1 F 1 2 M 2 - 1 0 1 P 1 0 A C 1 2 0 0", "err badargs"},
 		{map[string]string{"a.html": `{% macro M1(p0 string, p1 html) %}{{ p0 }}{{ p1 }}{% end %}{{ M1("<", "<") }}`}, "a.html",
-			"1 F 1 2 M 1 - 2 0 1 2 P 1 0 P 1 1 A C 1 1 0 2 3c 3c", "ok " + proto.Hex([]byte("&lt;<"))},
+			"1 F 1 2 M 2 - 2 0 1 2 P 1 0 P 1 1 A C 1 2 0 2 3c 3c", "ok " + proto.Hex([]byte("&lt;<"))},
+		// an unexported name is not imported: the importer, and the layout of an extending file, do not see it …
+		{map[string]string{"a.html": `{% import "l.html" %}{{ m1() }}`, "l.html": `{% macro m1 %}x{% end %}`}, "a.html",
+			"2 F 1 2 I 1 A C 1 3 0 0 F 1 1 M 3 - 0 1 T 78", "err undefined"},
+		{map[string]string{"a.html": `{% extends "l.html" %}{% macro m1 %}x{% end %}`, "l.html": `{{ m1() }}`}, "a.html",
+			"2 F 1 2 X 1 M 3 - 0 1 T 78 F 1 1 A C 1 3 0 0", "err undefined"},
+		// … while the file itself does, forward references included
+		{map[string]string{"a.html": `{% import "l.html" %}{{ M1() }}`, "l.html": `{% macro M1 %}{{ m2() }}{% end %}{% macro m2 %}y{% end %}`}, "a.html",
+			"2 F 1 2 I 1 A C 1 2 0 0 F 1 2 M 2 - 0 1 C 1 5 0 0 M 5 - 0 1 T 79", "ok " + proto.Hex([]byte("y"))},
 	}
 	for _, b := range cases {
 		fs := scriggo.Files{}
